@@ -58,7 +58,8 @@ Definition select (keys : list vkey) (m : mrec) : list (option grec) :=
   map (fun k => ctx_get k (publish m)) keys.
 
 (* a replaceBy lambda `concat(str($k?.value), "lit", ...)` *)
-Inductive ritem := ILit (s : str) | IVal (k : vkey).
+(* IJoin k n: `[0 .. n-1].select(str($k?.value)).join("")` - a lazy sequence inside the lambda *)
+Inductive ritem := ILit (s : str) | IVal (k : vkey) | IJoin (k : vkey) (n : nat).
 Definition null_str : str := [110; 117; 108; 108].
 Definition item_eval (m : mrec) (it : ritem) : str :=
   match it with
@@ -67,6 +68,10 @@ Definition item_eval (m : mrec) (it : ritem) : str :=
               | Some (Some v, _, _) => v
               | _ => null_str
               end
+  | IJoin k n => concat (repeat (match ctx_get k (publish m) with
+                                 | Some (Some v, _, _) => v
+                                 | _ => null_str
+                                 end) n)
   end.
 Definition items_eval (items : list ritem) (m : mrec) : str := concat (map (item_eval m) items).
 
@@ -100,6 +105,40 @@ Definition regex_split (s : str) (ms : list mrec) (cnt : Z) : list (option str) 
 
 Definition whole_value (m : mrec) : option str := fst (fst (m_whole m)).
 
+(* ---- selectors that return LAZY sequences, and consumers of the searchAll result ------------
+   A selector may return a sequence that reads the match records only when it is iterated
+   (select / where over a constant list).  Whatever the consumer does with the outer sequence
+   first (materialise, reverse, slice), every inner sequence shows the records of ITS match:
+   the records are per match (a fresh child context per selector call). *)
+Inductive rv := VStr (s : option str) | VInt (z : Z).
+
+Inductive lsel :=
+| LValue (k : vkey) (n : nat)    (* [0 .. n-1].select($k?.value) *)
+| LSpan (k : vkey)               (* [0, 1].select(switch($ = 0 => $k.start, true => $k.end)); k is published *)
+| LWhere (k : vkey) (thr : Z).   (* [x].where($k.end > thr); k is published *)
+
+Definition var_rec (m : mrec) (k : vkey) : grec :=
+  match ctx_get k (publish m) with Some g => g | None => none_rec end.
+
+Definition lsel_eval (sel : lsel) (m : mrec) : list rv :=
+  match sel with
+  | LValue k n => repeat (VStr (fst (fst (var_rec m k)))) n
+  | LSpan k => [VInt (snd (fst (var_rec m k))); VInt (snd (var_rec m k))]
+  | LWhere k thr => if snd (var_rec m k) >? thr then [VStr (Some [120])] else []
+  end.
+
+Inductive consumer := CPlain | CToList | CReverse | CTake1 | CSkip1.
+Definition consume {A} (c : consumer) (l : list A) : list A :=
+  match c with
+  | CPlain | CToList => l
+  | CReverse => rev l
+  | CTake1 => firstn 1 l
+  | CSkip1 => skipn 1 l
+  end.
+
+Definition search_all_lazy (ms : list mrec) (sel : lsel) (c : consumer) : list (list rv) :=
+  consume c (map (lsel_eval sel) ms).
+
 (* ---- correspondence ---------------------------------------------------------------- *)
 Inductive rcall :=
 | RMatches (m : option mrec)
@@ -107,7 +146,9 @@ Inductive rcall :=
 | RSearchAll (ms : list mrec) (sel : option (list vkey))
 | RReplaceBy (s : str) (ms : list mrec) (items : list ritem) (cnt : Z)
 | RReplaceLit (s : str) (ms : list mrec) (repl : str) (cnt : Z)
-| RSplit (s : str) (ms : list mrec) (cnt : Z).
+| RSplit (s : str) (ms : list mrec) (cnt : Z)
+| RSearchLazy (m : option mrec) (sel : lsel)
+| RSearchAllLazy (ms : list mrec) (sel : lsel) (c : consumer).
 
 Inductive rres :=
 | XNull
@@ -115,7 +156,8 @@ Inductive rres :=
 | XStr (s : str)
 | XOStrs (l : list (option str))
 | XRecs (l : list (option grec))
-| XRecss (l : list (list (option grec))).
+| XRecss (l : list (list (option grec)))
+| XVals (l : list (list rv)).
 
 Definition reval (c : rcall) : rres :=
   match c with
@@ -128,10 +170,20 @@ Definition reval (c : rcall) : rres :=
   | RReplaceBy s ms items cnt => XStr (replace_by s ms items cnt)
   | RReplaceLit s ms repl cnt => XStr (replace_lit s ms repl cnt)
   | RSplit s ms cnt => XOStrs (regex_split s ms cnt)
+  | RSearchLazy None _ => XNull
+  | RSearchLazy (Some m) sel => XVals [lsel_eval sel m]
+  | RSearchAllLazy ms sel c => XVals (search_all_lazy ms sel c)
   end.
 
 Definition grec_eqb (a b : grec) : bool :=
   option_eqb str_eqb (fst (fst a)) (fst (fst b)) && Z.eqb (snd (fst a)) (snd (fst b)) && Z.eqb (snd a) (snd b).
+
+Definition rv_eqb (a b : rv) : bool :=
+  match a, b with
+  | VStr x, VStr y => option_eqb str_eqb x y
+  | VInt x, VInt y => Z.eqb x y
+  | _, _ => false
+  end.
 
 Definition rres_eqb (a b : rres) : bool :=
   match a, b with
@@ -141,6 +193,7 @@ Definition rres_eqb (a b : rres) : bool :=
   | XOStrs x, XOStrs y => list_eqb (option_eqb str_eqb) x y
   | XRecs x, XRecs y => list_eqb (option_eqb grec_eqb) x y
   | XRecss x, XRecss y => list_eqb (list_eqb (option_eqb grec_eqb)) x y
+  | XVals x, XVals y => list_eqb (list_eqb rv_eqb) x y
   | _, _ => false
   end.
 
